@@ -125,6 +125,7 @@ package parser
 //@   at call stringLitExpr#1 set exOffA = store(exOffA, len(parts), exprOff)
 //@   at call stringLitExpr#1 set exEndA = store(exEndA, len(parts), exprEnd)
 //@   at call stringLitExpr#1 set sDone = sDone + end + 3
+//@   at call append#2 assert [dollar-piece-ends-at-its-only-dollar-dollar] text[at] == '$' && text[at+1] == '$' && (forall k in 0..at :: text[k] != '$')
 //@   at call append#2 set psA = store(psA, len(parts), sDone)
 //@   at call append#2 set peA = store(peA, len(parts), sDone + at + 2)
 //@   at call append#2 set sDone = sDone + at + 2
